@@ -41,7 +41,11 @@ func (e errClass) String() string {
 	if e.Kind == "" {
 		return "nil"
 	}
-	return fmt.Sprintf("%s{off=%d ptr=%q sent=%s}", e.Kind, e.Off, e.Ptr, e.Sent)
+	p := e.Ptr
+	if len(p) > 80 {
+		p = p[:40] + "..." + p[len(p)-30:]
+	}
+	return fmt.Sprintf("%s{off=%d ptr=%q sent=%s}", e.Kind, e.Off, p, e.Sent)
 }
 
 func sentinel(err error) string {
